@@ -866,10 +866,27 @@ def EXECUTOR(module, reg, uni, **kw):
 _MAIL_EXEC = []
 
 
+def _has_ite(t):
+    seen, stack = set(), [t]
+    while stack:
+        x = stack.pop()
+        if x.get_id() in seen:
+            continue
+        seen.add(x.get_id())
+        if z3.is_app(x):
+            if x.decl().kind() == z3.Z3_OP_ITE:
+                return True
+            stack.extend(x.children())
+    return False
+
+
 def _mail_executor():
     if not _MAIL_EXEC:
         from contracts import c16_exec
-        from pyvc.values import VBytes, VTuple
+        from pyvc.values import VBytes, VTuple, VInt
+        from pyvc.state import Frame
+        from pyvc.ops import Unsupported
+        fld_, I_ = fld, I
 
         class C03MailExecutor(c16_exec.MailExecutor):
             """bytes literals given to startswith/endswith on a (latin-1 modelled) byte string"""
@@ -884,6 +901,92 @@ def _mail_executor():
                         return a
                     args = [conv(args[0])] + list(args[1:])
                 return super().str_method(st, s, name, args, kwargs, node)
+
+            def _sym_comp(self, n, st, elt_nodes):
+                view = self._probe_iter(n, st)
+                if view is None:
+                    return None
+                g = n.generators[0]
+                (st, _it) = self.ev(g.iter, st)[0]
+                length, elem = view
+                snap = st.fork()
+
+                def at(k):
+                    """-> (keep Bool term, element value, [assumption terms of that evaluation])  at index term k."""
+                    s = snap.fork()
+                    npc = len(s.pc)
+                    s.frames.append(Frame({}, len(s.frames) - 1, s.frame.fnode))
+                    self.sinks.append([])
+                    try:
+                        cur = self.assign(g.target, elem(k), s)
+                        if len(cur) != 1:
+                            raise Unsupported(f"{self.loc(n)} forking comprehension target")
+                        s1 = cur[0]
+                        keep = []
+                        for cond in g.ifs:
+                            r = self.ev(cond, s1)
+                            if len(r) != 1:
+                                raise Unsupported(f"{self.loc(n)} forking comprehension condition")
+                            s1, cv = r[0]
+                            keep.append(self.truth(s1, cv).t)
+                        if len(elt_nodes) != 1:
+                            raise Unsupported(f"{self.loc(n)} multi-valued comprehension")
+                        r = self.ev(elt_nodes[0], s1)
+                        if len(r) != 1:
+                            raise Unsupported(f"{self.loc(n)} forking comprehension element")
+                        s1, v = r[0]
+                    finally:
+                        sink = self.sinks.pop()
+                    if sink:
+                        raise Unsupported(f"{self.loc(n)} comprehension element may raise")
+                    return z3.And(keep + [z3.BoolVal(True)]), v, s1, list(s1.pc[npc:])
+
+                J = z3.Int(fresh_name("j!comp"))
+                keepJ, vJ, sJ, extraJ = at(J)
+                # extraJ: assumptions made by library models while the element was evaluated (instances of assumed contracts such as
+                # the ordering facts of re.finditer matches).  Forks and possible exceptions were excluded above, so these are facts about
+                # the element at index J, not branch conditions; they are kept as a quantified fact triggered by the element term.
+                if extraJ and hasattr(vJ, "t") and z3.is_app(vJ.t) and vJ.t.num_args() > 0:
+                    body_ = z3.Implies(z3.And(J >= 0, J < length), z3.And(extraJ))
+                    if _has_ite(vJ.t):
+                        st.assume(z3.ForAll([J], body_))
+                    else:
+                        st.assume(z3.ForAll([J], body_, patterns=[vJ.t]))
+                # element as a function of the index
+                if isinstance(vJ, VRef):
+                    o = sJ.obj(vJ.ref)
+                    sch = self.schema(o.cls) if o.kind == "obj" and o.cls else None
+                    if sch is None:
+                        raise Unsupported(f"{self.loc(n)} comprehension element is a heap object without schema")
+                    ef = z3.Function(fresh_name(f"comp_{o.cls}"), I, ext_sort(o.cls))
+                    facts = []
+                    for f, kind in sch.items():
+                        cur = o.data.get(f)
+                        if kind in ("str", "int", "bool") and isinstance(cur, (VStr, VInt, VBool)):
+                            facts.append(ops.eq_term(X._val(kind, fld(o.cls, f, X._sort_of_kind(kind))(ef(J))), cur))
+                    if facts:
+                        st.assume(z3.ForAll([J], z3.And(facts), patterns=[ef(J)]))
+                    ekind = ("obj", o.cls)
+                    cls = o.cls
+
+                    def el(k, ef=ef, cls=cls):
+                        return VExt(cls, ef(k))
+                elif isinstance(vJ, (VStr, VInt, VBool, VExt)):
+                    ekind = X.ekind_of_value(vJ)
+
+                    def el(k):
+                        return at(k)[1]
+                else:
+                    raise Unsupported(f"{self.loc(n)} comprehension element {vJ!r}")
+                if not g.ifs:
+                    return st, VSeq(length, el, ekind, tag=("map", length, el))
+                # filtered: an order-preserving sub-sequence, described by (source length, keep, element)
+                ln = z3.Int(fresh_name("filter.len"))
+                st.assume(z3.And(ln >= 0, ln <= length))
+                es = X._sort_of_kind(ekind)
+                arr = z3.Const(fresh_name("filter.at"), z3.ArraySort(I, es))
+                keep_fn = lambda k: at(k)[0]
+                return st, VSeq(ln, lambda k: X._val(ekind, z3.Select(arr, k)), ekind, tag=("filtermap", length, keep_fn, el))
 
         _MAIL_EXEC.append(C03MailExecutor)
     return _MAIL_EXEC[0]
